@@ -101,14 +101,6 @@ def run_mapping(
     if 'tmp_dir' not in config:
         raise RuntimeError("did not specify tmp_dir")
 
-    if config['tmp_dir'] is not None:
-        timestamp = get_timestamp().replace('-', '')
-        tmp_dir = tempfile.mkdtemp(
-            dir=config['tmp_dir'],
-            prefix=f'cell_type_mapper_{timestamp}_')
-    else:
-        tmp_dir = None
-
     if output_path is not None:
         output_path = pathlib.Path(output_path)
 
@@ -130,6 +122,18 @@ def run_mapping(
                     raise RuntimeError(
                         "unable to write to "
                         f"{pth.resolve().absolute()}")
+
+    # create the scratch directories only after the checks above, so that
+    # an error raised by them cannot leave anything behind in tmp_dir
+    if config['tmp_dir'] is not None:
+        timestamp = get_timestamp().replace('-', '')
+        tmp_dir = tempfile.mkdtemp(
+            dir=config['tmp_dir'],
+            prefix=f'cell_type_mapper_{timestamp}_')
+    else:
+        tmp_dir = None
+
+    tmp_result_dir = None
 
     try:
         if config['tmp_dir'] is not None:
@@ -187,6 +191,7 @@ def run_mapping(
         log.add_msg(traceback_msg)
         raise
     finally:
+        _clean_up(tmp_result_dir)
         _clean_up(tmp_dir)
         log.info("CLEANING UP")
         if log_path is not None:
